@@ -128,7 +128,7 @@ func init() {
 		ID:    "C13",
 		Level: "exploration",
 		Rule: "two seeded classes: (pass-through) a request whose protocol, codec and compression the service accepts, with arbitrary extra headers, query string, declared content length and body bytes that need not be valid in the protocol; " +
-			"(unknown) a request for a path no endpoint matches with the unknown-endpoint handler installed; the downstream handler answers with an arbitrary status, header set, body, trailers and flush pattern; " +
+			"(unknown) a request for a path no endpoint matches, or a well-formed RPC for a method without REST binding on a REST-only service, with the unknown-endpoint handler installed; the downstream handler answers with an arbitrary status, header set, body, trailers and flush pattern; " +
 			"all delivery segmentations, read sizes, body cuts and connection errors. oracle: method, URL (path, raw path, raw query), protocol version, host, request-URI, header multimap, ContentLength, body bytes and body error at the handler equal what the client sent; " +
 			"status, headers, body, trailers and flush count at the client equal what the handler wrote. distinct = (class, client form, schedule hash); non-trivial = the downstream handler was invoked",
 		Gen: func(c *Chooser, tier string) *Plan {
@@ -170,6 +170,14 @@ func init() {
 					cp.ExtraHdrs = [][2]string{{"Content-Type", Pick(c, "application/json", "application/grpc", "text/plain", "application/connect+proto")}}
 				}
 				p = &Plan{Config: cfg, RPCs: []RPCPlan{{Client: cp}}, Sched: genSched(c), Pool: genPool(c)}
+				if c.Prob(0.35) {
+					// "not found" decided late: the path names a real method, the client's request is a well-formed RPC, but the
+					// service only targets REST and the method has no binding - by then the request head has been worked on
+					if r := genRPC(c, ScenOpts{MaxMsgs: 2, MaxBytes: 40, NoErr: true, Segment: true, Methods: []string{"Unary", "UnaryNSE", "ClientStream", "ServerStream", "Bidi"}}); r != nil {
+						p.Config.Services[0].Protocols = []string{ProtoREST}
+						p.RPCs[0].Client = r.Client
+					}
+				}
 			}
 			p.Note = kind
 			rc := &p.RPCs[0].Client
